@@ -31,7 +31,8 @@ Definition agree (c : case) : bool :=
   match c with
   | Case sk dk d impl =>
       match relay sk dk d, to_res impl with
-      | Unspec, _ => true                      (* a slice bound between len and cap: not predicted *)
+      | Unspec, Panic => true    (* a slice bound between len and cap: the runner passes slices whose
+                                    capacity equals their length, so Go panics there *)
       | Ok p, Ok q => proposal_eqb p q
       | Err, Err => true
       | Panic, Panic => true
